@@ -2184,9 +2184,12 @@ class WBEMConnection:  # pylint: disable=too-many-instance-attributes
                 # CIMClass.tocimxml() always ignores path
                 return _cim_xml.VALUE(obj.tocimxml().toxml())
             if isinstance(obj, list):
+                # NULL array entries are represented as VALUE.NULL
+                items = [_cim_xml.VALUE_NULL() if x is None else paramvalue(x)
+                         for x in obj]
                 if obj and isinstance(obj[0], (CIMClassName, CIMInstanceName)):
-                    return _cim_xml.VALUE_REFARRAY([paramvalue(x) for x in obj])
-                return _cim_xml.VALUE_ARRAY([paramvalue(x) for x in obj])
+                    return _cim_xml.VALUE_REFARRAY(items)
+                return _cim_xml.VALUE_ARRAY(items)
             # The type has been checked in infer_type(), so we can assert
             assert obj is None
 
